@@ -893,6 +893,12 @@ class _OSProxy:
     def __getattr__(self, name):
         if name in _PURE_OS and hasattr(_os, name):
             return getattr(_os, name)
+        if not hasattr(_os, name):
+            # what the real module would do (so `getattr(os, 'O_BINARY', 0)` and hasattr() probes work)
+            raise AttributeError(f"module 'os' has no attribute '{name}'")
+        value = getattr(_os, name)
+        if isinstance(value, (int, str, bytes, float)) and not callable(value):
+            return value             # platform constants (O_*, SEEK_*, sep, name, ...) carry no I/O
         self._m.refuse(f'os.{name}')
 
 
